@@ -711,6 +711,13 @@ func (e *Env) locOfInner(x *CE) loc {
 			return loc{heap: "GH." + name, ref: o.S}
 		}
 		switch name {
+		case "deref":
+			a := e.tr(x.Args[1], true)
+			pt, ok := a.Ty.Underlying().(*types.Pointer)
+			if !ok {
+				fail("assigns %s: not a pointer", x)
+			}
+			return loc{heap: g.boxHeapOf(pt.Elem()), ref: a.S}
 		case "elems":
 			s := e.tr(x.Args[1], true)
 			sl, ok := s.Ty.Underlying().(*types.Slice)
@@ -825,6 +832,12 @@ func (f *frame) applyContract(fs *FuncSpec, actuals []CV, res *types.Tuple, st *
 	}
 	withAliases(vars, rename)
 	envPost := &Env{g: g, st: st, old: pre, vars: vars, pc: pc, hyp: true}
+	for _, c := range fs.Defines {
+		// definitional: the result of this deterministic, heap-independent function is given a name
+		h := envPost.tr(c.E, true)
+		g.s.assumeUnder(pc, h.S)
+		g.trustedUse["definition: "+fs.Key+" defines "+c.Text] = true
+	}
 	for _, c := range ens {
 		if strings.Contains(c.Text, "local(") {
 			continue // speaks about the callee's own locals: not part of what callers may assume
